@@ -244,9 +244,11 @@ func (e *env) faultedListing(rng *rand.Rand) {
 	relabel.armed, relabel.n, relabel.at, relabel.fired = true, 0, 2, false
 	res := e.st.Add(over)
 	relabel.armed = false
-	if !relabel.fired || res.Panic != nil || res.Err == nil {
+	if !relabel.fired || res.Panic != nil {
 		return
 	}
+	// (a submission that is acknowledged although one of its relabelling statements failed is judged by the listing as well)
+	acked := res.Err == nil
 	r.Count("listings_after_an_interrupted_reorganisation", 1)
 	for _, b := range []int{1, 2, 3, 7, 1000} {
 		var got []entry
@@ -269,6 +271,11 @@ func (e *env) faultedListing(rng *rand.Rand) {
 				return
 			}
 		}
+	}
+	if acked {
+		r.Count("interrupted_reorganisations_acknowledged_all_the_same", 1)
+		e.failed = true // the model cannot follow a store that acknowledged the header and kept the old labels
+		return
 	}
 	// the peer delivers the header again
 	if si := mb.Step(e.st, e.m, over); si.Res.Panic != nil || si.Res.Code() != mb.WantCode(si.Outcome) {
